@@ -268,8 +268,8 @@ def task_dft(task):
 
     # ---- inverses
     spectra = [numpy_fft(a, axes, sign, hc) for a in unit_arrays(shape, dtype)]
-    for how in ('prop', 'ctor'):
-        for mode in ('oop', 'ip'):
+    for how, mode in conc.get('inv', [['prop', 'oop'], ['prop', 'ip'], ['ctor', 'oop'], ['ctor', 'ip']]):
+        if True:
             ex = cls_extras(shape, axes, mode=mode, how=how)
             try:
                 dom, op = build()
@@ -632,9 +632,14 @@ def task_hist(task):
                 post = pre
             ev['post'] = post
             cls = hist_class(conc)
+            opimpl = conc['impl']
             if act['op'] in ('inv', 'invip'):
                 cls += 'Inverse'
-            where = {'class': cls, 'impl': conc['impl'], 'field': 'real' if conc['field'] == 'R' else 'complex',
+                try:
+                    opimpl = rig.inverse().impl       # DiscreteFourierTransform.inverse does not propagate impl
+                except Exception:
+                    pass
+            where = {'class': cls, 'impl': opimpl, 'field': 'real' if conc['field'] == 'R' else 'complex',
                      'halfcomplex': hcname(conc['field'], conc['hcflag']), 'clause': 'history'}
             ex = cls_extras(tuple(conc['shape']), tuple(conc.get('axes', range(len(conc['shape'])))),
                             None if conc['kind'] == 'dft' else [conc.get('shift', True)],
@@ -645,7 +650,7 @@ def task_hist(task):
                             conc['field'], conc['hcflag']],
                            act['op'] not in ('plan', 'temps'), st.get('heap')))
             seen.append(act['op'])
-            if ev.get('err') or post != st.get('heap', post):
+            if ev.get('err') or post != st.get('heap', st.get('mirror', post)):
                 break           # the real objects left the specified behaviour: later steps are not comparable
             pre = post
     return res
@@ -686,12 +691,28 @@ def filter_bank_error(wavelet):
     return err
 
 
+def pywt_refuses(shape, axes, wavelet, mode, L):
+    """Plain PyWavelets (no ODL) cannot run this decomposition / reconstruction at all (e.g. reflect-type
+    extension of a length-1 signal at an over-deep level): a limitation of the back-end, outside the claim."""
+    try:
+        x = np.arange(float(np.prod(shape))).reshape(shape) + 0.5
+        ax = tuple(range(len(shape))) if axes is None else tuple(axes)
+        c = pywt.wavedecn(x, wavelet, mode=PYWT_MODE[mode], level=L, axes=ax)
+        pywt.waverecn(c, wavelet, mode=PYWT_MODE[mode], axes=ax)
+        return None
+    except Exception as e:
+        return 'PyWavelets itself raises %s for mode %s at this size / level' % (errname(e), PYWT_MODE[mode])
+
+
 def task_wave_rt(task):
     """W.inverse(W(e_j)) for all unit vectors, snapped to Z."""
     shape, axes, wavelet, mode, L = tuple(task['shape']), task['axes'], task['wavelet'], task['mode'], task['L']
     ax = tuple(range(len(shape))) if axes is None else tuple(axes)
     n = int(np.prod(shape))
     ev = {'k': 'id', 'n': n}
+    why = pywt_refuses(shape, axes, wavelet, mode, L)
+    if why:
+        return [{'unsupported': why, 'abstract': ['wave-rt', list(shape), wavelet, mode, L]}]
     try:
         sp = wave_space(shape)
         W = odl.trafos.WaveletTransform(sp, wavelet, nlevels=L, pad_mode=mode, axes=axes)
@@ -741,6 +762,9 @@ def task_wave_lay(task):
     shape, axes, L = tuple(case['shape']), tuple(case['axes']), case['L']
     wavelet, mode = task['wavelet'], task['mode']
     ev = {'k': 'lay', 'shape': list(shape), 'axes': list(axes), 'flen': case['flen'], 'mode': case['mode'], 'L': L}
+    why = pywt_refuses(shape, axes, wavelet, mode, L)
+    if why:
+        return [{'unsupported': why, 'abstract': ['wave-lay', list(shape), wavelet, mode, L]}]
     try:
         sp = wave_space(shape)
         W = odl.trafos.WaveletTransform(sp, wavelet, nlevels=L, pad_mode=mode, axes=axes)
@@ -750,19 +774,21 @@ def task_wave_lay(task):
         coeffs = pywt.wavedecn(x, wavelet, mode=PYWT_MODE[mode], level=L, axes=axes)
         blocks = []
 
-        def locate(arr):
+        def locate(arr, frm):
+            """first position >= frm where the ravelled array sits in the flat output (equal-valued blocks,
+            e.g. vanishing details, are told apart only by the fact that blocks cannot overlap)"""
             flat = np.asarray(arr).ravel()
             if flat.size == 0:
                 return -1
-            for s in np.flatnonzero(c == flat[0]):
-                if s + flat.size <= c.size and np.array_equal(c[s:s + flat.size], flat):
-                    return int(s)
-            return -1
-        s = locate(coeffs[0])
+            cand = [int(s) for s in np.flatnonzero(c == flat[0])
+                    if s + flat.size <= c.size and np.array_equal(c[s:s + flat.size], flat)]
+            later = [s for s in cand if s >= frm]
+            return later[0] if later else (cand[0] if cand else -1)
+        s = locate(coeffs[0], 0)
         blocks.append([0, 'a', list(coeffs[0].shape), s, s + coeffs[0].size])
         for lev, d in enumerate(coeffs[1:], start=1):
             for key in sorted(d):
-                s = locate(d[key])
+                s = locate(d[key], max(blocks[-1][4], 0))
                 blocks.append([lev, key, list(d[key].shape), s, s + d[key].size])
         ev['blocks'] = blocks
         ev['total'] = int(W.range.size)
